@@ -16,6 +16,7 @@ import Kust.OpenApi
 import Kust.FieldSpec
 import Kust.Path
 import Kust.Kio
+import Kust.Fix
 import Kust.Gen.FieldSpecs
 import Kust.Gen.Lists
 open Lean Kust
@@ -310,6 +311,50 @@ def runKio (op : String) (a : Json) : Except String Json := do
     else return Json.mkObj [("err", Json.str "path")]
   | _ => throw s!"unknown kio op {op}"
 
+/-! ### fix -/
+def jStrs (j : Json) : List String := match j.getArr? with
+  | .ok a => a.toList.map fun x => x.getStr?.toOption.getD ""
+  | _ => []
+def jArr (j : Json) : List Json := match j.getArr? with | .ok a => a.toList | _ => []
+def jS (j : Json) (k : String) : String := (j.getObjValD k).getStr?.toOption.getD ""
+def jB (j : Json) (k : String) : Bool := (j.getObjValD k).getBool?.toOption.getD false
+def jPairs (j : Json) : List (String × String) := (jArr j).map fun p => match jStrs p with | [a, b] => (a, b) | _ => ("", "")
+def fsOfJ (j : Json) : Gen.FieldSpec := ⟨jS j "group", jS j "version", jS j "kind", jS j "path", jB j "create"⟩
+def fsToJ (f : Gen.FieldSpec) : Json := Json.mkObj [("group", f.group), ("version", f.version), ("kind", f.kind), ("path", f.path), ("create", f.create)]
+def genOfJ (j : Json) : Fix.GenArgs := ⟨jS j "body", jStrs (j.getObjValD "envs"), jS j "env"⟩
+def genToJ (g : Fix.GenArgs) : Json := Json.mkObj [("body", g.body), ("envs", strsJ g.envs), ("env", g.env)]
+def patchOfJ (j : Json) : Fix.Patch := ⟨jS j "path", jS j "patch", jS j "target", ""⟩
+def patchToJ (p : Fix.Patch) : Json := Json.mkObj [("path", p.path), ("patch", p.patch), ("target", p.target)]
+def pairsToJ (l : List (String × String)) : Json := Json.arr (l.map fun p => strsJ [p.1, p.2]).toArray
+def labelOfJ (j : Json) : Fix.Label := ⟨jPairs (j.getObjValD "pairs"), jB j "incSel", jB j "incTpl", (jArr (j.getObjValD "fields")).map fsOfJ⟩
+def labelToJ (l : Fix.Label) : Json := Json.mkObj [("pairs", pairsToJ l.pairs), ("incSel", l.incSel), ("incTpl", l.incTpl),
+  ("fields", Json.arr (l.fields.map fsToJ).toArray)]
+def kOfJ (j : Json) : Fix.K :=
+  { kind := jS j "kind", apiVersion := jS j "apiVersion", resources := jStrs (j.getObjValD "resources"), bases := jStrs (j.getObjValD "bases"),
+    images := jStrs (j.getObjValD "images"), imageTags := jStrs (j.getObjValD "imageTags"),
+    cms := (jArr (j.getObjValD "cms")).map genOfJ, secrets := (jArr (j.getObjValD "secrets")).map genOfJ,
+    commonLabels := jPairs (j.getObjValD "commonLabels"), labels := (jArr (j.getObjValD "labels")).map labelOfJ,
+    psm := jStrs (j.getObjValD "psm"), patches := (jArr (j.getObjValD "patches")).map patchOfJ, pj := (jArr (j.getObjValD "pj")).map patchOfJ }
+def kToJ (k : Fix.K) : Json := Json.mkObj [("kind", k.kind), ("apiVersion", k.apiVersion), ("resources", strsJ k.resources), ("bases", strsJ k.bases),
+  ("images", strsJ k.images), ("imageTags", strsJ k.imageTags), ("cms", Json.arr (k.cms.map genToJ).toArray),
+  ("secrets", Json.arr (k.secrets.map genToJ).toArray), ("commonLabels", pairsToJ k.commonLabels),
+  ("labels", Json.arr (k.labels.map labelToJ).toArray), ("psm", strsJ k.psm), ("patches", Json.arr (k.patches.map patchToJ).toArray),
+  ("pj", Json.arr (k.pj.map patchToJ).toArray)]
+
+def runFix (op : String) (a : Json) : Except String Json := do
+  match op with
+  | "load" => return Json.mkObj [("ok", kToJ (Fix.fixLoad (kOfJ (a.getObjValD "k"))))]
+  | "pre" =>
+    let files := jStrs (a.getObjValD "files")
+    match Fix.fixPre (fun s => files.contains s) (kOfJ (a.getObjValD "k")) with
+    | some k => return Json.mkObj [("ok", kToJ k)]
+    | none => return Json.mkObj [("err", Json.str "label-clash")]
+  | "mergeall" =>
+    match Fix.mergeAll ((jArr (a.getObjValD "a")).map fsOfJ) ((jArr (a.getObjValD "b")).map fsOfJ) with
+    | some l => return Json.mkObj [("ok", Json.arr (l.map fsToJ).toArray)]
+    | none => return Json.mkObj [("err", Json.str "conflict")]
+  | _ => throw s!"unknown fix op {op}"
+
 def dispatch (comp : String) (args : Json) : Except String Json :=
   match comp.splitOn "." with
   | ["fns", op] => runFns op args
@@ -323,6 +368,7 @@ def dispatch (comp : String) (args : Json) : Except String Json :=
   | ["fieldspec", op] => runFieldSpec op args
   | ["path", op] => runPath op args
   | ["kio", op] => runKio op args
+  | ["fix", op] => runFix op args
   | _ => throw s!"unknown component {comp}"
 
 partial def loop (hin hout : IO.FS.Stream) : IO Unit := do
